@@ -696,3 +696,17 @@ def gen_random_strings(ctx):
 
 
 UNITS.append(Unit("bracket_random", gen_random_strings, check_string, shards=(2, 8)))
+
+
+def gen_atheris(ctx):
+    """coverage-guided campaign on the bracket reader, semantic oracle (recogniser) inside the target"""
+    from vlib import fuzzdrv
+    seeds = [] if ctx.shard % 2 == 0 else [b"\x00((S(WP Who)(VB did))(? ?))\n", b"\x01((S(Who)(did)))", b"\x00(VROOT (NP (NN a)) (. .))\t1 2\n"]
+    runs = 6000 if ctx.tier == "quick" else 400000
+
+    def to_case(data):
+        return {"text": data[1:].decode("utf-8", "ignore").replace("\x00", ""), "emptypos": bool(data[:1] and data[0] & 1)}
+    fuzzdrv.campaign(ctx, "brackets", runs, 64 if ctx.tier == "quick" else 200, seeds, to_case, check_string, "atheris-brackets")
+
+
+UNITS.append(Unit("atheris_brackets", gen_atheris, check_string, shards=(2, 8)))
